@@ -16,7 +16,7 @@ from concurrent.futures import ThreadPoolExecutor
 import vlib
 
 MANIFEST = dict(
-    level=("proof", "Eleven Coq theorems over an executable model of munged's start-up/shutdown program (file "
+    level=("proof", "Twenty-one Coq theorems.  Eleven over an executable model of munged's start-up/shutdown program (file "
            "system of the lock/socket/pid/seed names, fcntl lock owners, listeners; any number of processes, any "
            "interleaving, SIGKILL enabled in every state): single lock holder, only the holder mutates the names, a "
            "loser exits at F_SETLK leaving everything untouched, the serving daemon is undisturbed, the holder "
@@ -25,8 +25,19 @@ MANIFEST = dict(
            "refutation with witness.  Tied to the code on every run: the model's program must equal the abstracted "
            "strace of the rebuilt daemon (start, stop, losing start), lock.c's kernel requests are regenerated as "
            "facts, and the theorems' conclusions are checked live on racing starts, late starts, clean stop and "
-           "SIGKILL injection at each name-touching syscall.", "7 C15"),
-    note="Trusted: Coq kernel+vm_compute, start_probe.c (interposed lock.c), extraction, strace and the abstraction "
+           "SIGKILL injection at each name-touching syscall.  Ten over StartPathModel, the same program with every name "
+           "a byte string computed as the source computes it (strlcpy into sun_path with the size and the length test "
+           "translated from sock_create's text, strdupf's buffer limit for the lock name, sizes regenerated), file system "
+           "keyed by byte strings, one configuration per process: for EVERY socket path the start is refused without "
+           "binding or bound name = unlinked names = stem of the locked name; an accepted configuration's program is "
+           "StartModel.prog under an injective reading of its tokens and the two models run in lock step, which carries "
+           "single-holder / winner-undisturbed / restart / clean-stop to byte-string names for every path length; a "
+           "refused start never binds, listens or serves; frame: a daemon changes no directory entry but those of its own "
+           "four names.  Live: socket paths of sizeof(sun_path)-2..+1 bytes, names at every site (strace) == model, "
+           "/proc/net/unix and directory after start, after a second start on a proper prefix, after clean stops.",
+           "7 C15"),
+    note="Trusted: Coq kernel+vm_compute, start_probe.c (interposed lock.c), the text translator of sock_create's "
+         "strlcpy/length test (tools/facts/start.py), extraction, strace and the abstraction "
          "function in c15.py; the C code is modelled at system-call granularity and tied by trace comparison and "
          "live tests, not verified.  open+write+close of the pid/seed file are one model step.  Clean stops "
          "overlapping starts are outside the positive theorems (F-C15-unlink).",
@@ -837,19 +848,19 @@ def start_fg(D, exe, trace=None):
     return popen(D, argv)
 
 
-def wait_started(D, proc, timeout=6.0):
-    """True when the daemon of this configuration is up (pid file written and a munged of this configuration alive),
-    False when the start command has exited"""
-    def up():
+def wait_started(D, proc, timeout=30.0):
+    """"up" when the daemon of this configuration is up (pid file written and a munged of this configuration alive),
+    "exited" when the start command has exited, None when neither happened in time (a machine under heavy load)"""
+    def state():
         if proc.poll() is not None:
             return "exited"
         if os.path.exists(D.pid) and D.procs():
             return "up"
         return None
-    return wait_for(up, timeout) == "up"
+    return wait_for(state, timeout)
 
 
-def stop_clean(D, proc, timeout=8.0):
+def stop_clean(D, proc, timeout=20.0):
     for q in D.procs():
         try:
             os.kill(q, signal.SIGTERM)
@@ -914,11 +925,16 @@ def scenario_pathlen(ctx, exe, oracle, spec):
         mtoks, mref, mbind = model_path_program(oracle, Q) if oracle else (None, None, None)
         q = start_fg(Q, exe, trace=tr)
         procs.append(q)
-        q_up = wait_started(Q, q)
+        q_st = wait_started(Q, q)
+        if q_st is None:
+            ctx.notes.append("pathlen n=%d: the start neither completed nor failed within 30 s; scenario skipped" % n)
+            return [], [], dict(facts, accepted=None, exit="undecided")
+        q_up = q_st == "up"
         facts["accepted"] = q_up
+        undecided = False
         live = []
         if q_up:
-            qpid = Q.procs()[0]
+            qpid = (Q.procs() or [q.pid])[0]
             live.append((Q, qpid))
             wait_for(lambda: listening_under(base), 2.0)
             bad, lis = check_bound(Q, base, live, "socket path of %d bytes" % n)
@@ -952,14 +968,19 @@ def scenario_pathlen(ctx, exe, oracle, spec):
                 ignore |= {P.key, P.log}
                 pp = start_fg(P, exe)
                 procs.append(pp)
-                p_up = wait_started(P, pp)
+                p_st = wait_started(P, pp)
+                p_up = p_st == "up"
                 facts["neighbour_up"] = p_up
-                if not p_up:
+                if p_st is None:
+                    ctx.notes.append("pathlen n=%d: the second start neither completed nor failed within 30 s" % n)
+                    P.killall()
+                    undecided = True
+                elif not p_up:
                     fails.append("socket path of %d bytes, second daemon on its %d-byte prefix: the second start failed "
                                  "(exit %s) although no daemon is configured with that path: %s"
                                  % (n, len(B), pp.poll(), tail(P.log, 200)))
                 else:
-                    live.append((P, P.procs()[0]))
+                    live.append((P, (P.procs() or [pp.pid])[0]))
                     wait_for(lambda: len(listening_under(base)) >= len(live), 2.0)
                     bad, lis2 = check_bound(P, base, live, "socket path of %d bytes and a second daemon on its %d-byte prefix"
                                             % (n, len(B)))
@@ -989,12 +1010,12 @@ def scenario_pathlen(ctx, exe, oracle, spec):
         for d, pr in [(Q, q)] + ([(P, procs[1])] if P is not None else []):
             if any(d is x for x, _ in live):
                 if not stop_clean(d, pr):
-                    fails.append("socket path of %d bytes: the daemon on %s did not exit within 8 s of SIGTERM"
+                    fails.append("socket path of %d bytes: the daemon on %s did not exit within 20 s of SIGTERM"
                                  % (n, short(d.sock, base)))
             else:
                 refused_locks |= {d.lock, d.lock[:1023]}
-        left = tree_files(base)
-        lis3 = listening_under(base)
+        left = tree_files(base) if not undecided else {}
+        lis3 = listening_under(base) if not undecided else []
         for p, k in sorted(left.items()):
             if p in ignore or p in refused_locks:
                 continue
